@@ -70,6 +70,8 @@ class Expander:
         if m:
             l = int(m.group(1))
             ds = [d for d in fn.defs().get(l, []) if not fn.blocks[d[0]]['cleanup']]
+            if fn.local_ty(l) == 'bool' and not (1 <= l <= fn.argc) and ds:
+                return self._bool(atom, l, ds)
             if len(ds) == 1 and not (1 <= l <= fn.argc):
                 return self._single(atom, l, ds[0])
             if len(ds) >= 2 and not (1 <= l <= fn.argc) and fn.local_ty(l) in UMAX:
@@ -100,6 +102,72 @@ class Expander:
                 if a is not None and b is not None and self._stable([a, b], sd[0], None):
                     return mm.group(2), a, b, UMAX[mm.group(1)]
         return None
+
+    def _bool(self, atom, l, ds):
+        """D7: a boolean local (a named `let ok = a <= b;`, the result of `&&` / `||` / matches!): 1 or 0 together with what
+        that says about the operands of the comparison that produced it, one case per definition that reaches the site."""
+        fn, A = self.fn, self.A
+        r = lin(atom)
+        if len(ds) > 1 and any(self._in_cycle(d[0]) for d in ds):
+            return [], None
+        sb, si = self.site
+        dblocks = {d[0] for d in ds}
+        alts = []
+        for (b, i, kind, node) in ds:
+            if len(ds) > 1:
+                reach = fn.reachable(fn.succs()[b], avoid=dblocks - {b}) if fn.succs()[b] else set()
+                if b != sb and sb not in reach:
+                    continue
+                saved = getattr(A, '_site', None)
+                try:
+                    ctx = [c for c in A.facts_at(b, i) if atom not in c and A.stable_between(A.mutable_atoms(c) | {x for x in c if x.startswith(('P:', 'len:'))}, ('def', b, i), self.site)]
+                finally:
+                    A._site = saved
+            else:
+                ctx = []
+            if kind != 'assign':
+                return [], None
+            rv = node['rv']
+            if rv['k'] == 'use' and rv['op']['k'] == 'const':
+                v = self.ev(rv['op'], (b, i))
+                if v is None:
+                    return [], None
+                alts.append(eq(r, v) + ctx)
+            elif rv['k'] == 'use' and is_place(rv['op']) and not rv['op']['pl']['p'] and fn.local_ty(rv['op']['pl']['l']) == 'bool':
+                alts.append(eq(r, lin(A.atom_local(rv['op']['pl']['l']))) + ctx)
+            elif rv['k'] == 'un' and rv['op'] == 'Not' and is_place(rv['a']) and not rv['a']['pl']['p']:
+                alts.append(eq(add(r, lin(A.atom_local(rv['a']['pl']['l']))), lin(c=1)) + ctx)
+            elif rv['k'] == 'bin' and rv['op'] in ('Lt', 'Le', 'Gt', 'Ge', 'Eq', 'Ne'):
+                saved = getattr(A, '_site', None)
+                A._site = (b, i)
+                try:
+                    ea, eb = A.ev_op(rv['a']), A.ev_op(rv['b'])
+                finally:
+                    A._site = saved
+                if ea is None or eb is None or not self._stable([ea, eb], b, i):
+                    return [], None
+                o = rv['op']
+                def cons(op_):
+                    return {'Lt': [lt(ea, eb)], 'Le': [le(ea, eb)], 'Gt': [lt(eb, ea)], 'Ge': [le(eb, ea)], 'Eq': eq(ea, eb), 'Ne': None}[op_]
+                neg = {'Lt': 'Ge', 'Le': 'Gt', 'Gt': 'Le', 'Ge': 'Lt', 'Eq': 'Ne', 'Ne': 'Eq'}[o]
+                t_, f_ = cons(o), cons(neg)
+                if t_ is None:        # `a != b` true: two strict cases
+                    alts.append(eq(r, lin(c=1)) + [lt(ea, eb)] + ctx)
+                    alts.append(eq(r, lin(c=1)) + [lt(eb, ea)] + ctx)
+                else:
+                    alts.append(eq(r, lin(c=1)) + t_ + ctx)
+                if f_ is None:
+                    alts.append(eq(r, lin()) + [lt(ea, eb)] + ctx)
+                    alts.append(eq(r, lin()) + [lt(eb, ea)] + ctx)
+                else:
+                    alts.append(eq(r, lin()) + f_ + ctx)
+            else:
+                return [], None
+        if not alts or len(alts) > 8:
+            return [], None
+        if len(alts) == 1:
+            return alts[0], None
+        return [], alts
 
     def _single(self, atom, l, d):
         fn = self.fn
